@@ -189,6 +189,10 @@ impl TypeChecker {
             let mut has_wildcard = false;
 
             for arm in arms {
+                // An arm with a guard may be skipped at run time, so it covers nothing.
+                if arm.node.guard.is_some() {
+                    continue;
+                }
                 match &arm.node.pattern.node {
                     Pattern::Wildcard | Pattern::Binding(_) => {
                         has_wildcard = true;
